@@ -418,6 +418,63 @@ def protocol_facts(repo, add):
     add('')
 
 
+SEND_SITES = [('send_data', 'self._h2_connection.send_data', 'self.connection.data_send_process'),
+              ('send_headers', 'self._h2_connection.send_headers', 'self.connection.headers_send_process'),
+              ('send_request', 'self._h2_connection.send_headers', 'self.connection.headers_send_process')]
+CONTROL = (ast.If, ast.While, ast.For, ast.AsyncFor, ast.Try, ast.With, ast.AsyncWith, ast.Return,
+           ast.Break, ast.Continue, ast.Raise)
+
+
+def is_call_stmt(st, name):
+    return isinstance(st, ast.Expr) and isinstance(st.value, ast.Call) and u(st.value.func) == name
+
+
+def contains_call(node, name):
+    return any(isinstance(n, ast.Call) and u(n.func) == name for n in ast.walk(node))
+
+
+def send_site(fn, h2call, reset):
+    """(number of statements calling h2call, number of those after which -- in the same statement
+    list, or in the `else:` of the `try:` they end, with only straight-line non-awaiting statements in
+    between -- the reset hook is called).  Every frame handed to h2 must be followed by the hook."""
+    calls = followed = 0
+
+    def after_ok(rest):
+        for st in rest:
+            if is_call_stmt(st, reset):
+                return True
+            if isinstance(st, CONTROL) or any(isinstance(n, (ast.Await, ast.Yield)) for n in ast.walk(st)) \
+                    or contains_call(st, h2call):
+                return False
+        return False
+
+    def walk_block(stmts, tail):
+        nonlocal calls, followed
+        for i, st in enumerate(stmts):
+            rest = stmts[i + 1:] + tail
+            if isinstance(st, ast.Expr) and contains_call(st, h2call):
+                if not is_call_stmt(st, h2call):
+                    raise Unsupported('h2 call inside an expression: ' + u(st))
+                calls += 1
+                if after_ok(rest):
+                    followed += 1
+            elif isinstance(st, ast.Try):
+                walk_block(st.body, st.orelse)          # else: runs right after the body
+                for h in st.handlers:
+                    walk_block(h.body, [])
+                walk_block(st.orelse, [])
+                walk_block(st.finalbody, [])
+            elif isinstance(st, (ast.If, ast.While, ast.For, ast.AsyncFor)):
+                walk_block(st.body, [])
+                walk_block(st.orelse, [])
+            elif isinstance(st, (ast.With, ast.AsyncWith)):
+                walk_block(st.body, [])
+            elif contains_call(st, h2call):
+                raise Unsupported('h2 call in an unexpected statement: ' + u(st)[:80])
+    walk_block(fn.body, [])
+    return calls, followed
+
+
 WATCHED = ['ping_count_in_sequence', 'last_ping_sent', '_ping_handle', '_close_by_ping_handler']
 
 
@@ -505,6 +562,26 @@ def generate(repo):
     add('')
     config_facts(repo, add)
     protocol_facts(repo, add)
+    ptree = parse(repo, 'grpclib/protocol.py')
+    rows, total = [], {}
+    for fname, h2call, reset in SEND_SITES:
+        c, f = send_site(func_node(ptree, fname, 'Stream'), h2call, reset)
+        total[h2call] = total.get(h2call, 0) + c
+        rows.append('(%s, %s, %d, %d)' % (zs('Stream.' + fname), zs(reset.split('.')[-1]), c, f))
+    import glob
+    import os
+    allsrc = ''.join(open(f).read() for f in sorted(glob.glob(os.path.join(repo, 'grpclib', '**', '*.py'),
+                                                           recursive=True)))
+    for h2call, n in total.items():
+        meth = h2call.split('.')[-1]
+        # any `<something>_connection.send_data(` / `.send_headers(` in grpclib (h2 objects are named
+        # _h2_connection / _connection) must be one of the calls counted above
+        if allsrc.count('_connection.%s(' % meth) != n:
+            raise Unsupported('%s is called outside the three Stream methods' % h2call)
+    add('(* every place where a DATA / HEADERS frame is handed to h2: (function, reset hook, number of '
+        'h2 calls, number of them directly followed by the hook -- per FRAME, not per message) *)')
+    add('Definition send_sites : list (list Z * list Z * Z * Z) := [%s].' % '; '.join(rows))
+    add('')
     add('(* EVERY assignment in grpclib/ to one of the keepalive variables (any object, any module): '
         '(variable, [(module:Class.function, what is written)]) *)')
     w = writers(repo)
